@@ -1193,5 +1193,32 @@ func c12R4(p *core.Program, r *core.Report) {
 			}
 		}
 		r.Check(ok, rule, cl, "lines starting with go: are dropped", cl.Node().Pos(), "append dominated by !HasPrefix(line, \"go:\")", "comment lines are no longer filtered by the `go:` prefix test")
+		// every line of the group's text is a line of its own: the text is cut at each line break, without a bound on
+		// the number of pieces (one block comment is one entry of the group's list and many lines)
+		var splits []*ast.CallExpr
+		for _, c := range core.Calls(cl.Body, true) {
+			switch core.CalleeName(cinfo, c) {
+			case "strings.Split", "strings.SplitSeq", "strings.Lines", "strings.SplitN", "strings.SplitAfter", "strings.SplitAfterN", "strings.Fields", "strings.FieldsFunc", "strings.Cut", "(*bufio.Scanner).Scan":
+				splits = append(splits, c)
+			}
+		}
+		if len(splits) == 0 {
+			r.Anchor(rule, "the call that cuts the comment text into lines (commentLinesFrom)")
+		}
+		for _, c := range splits {
+			name := core.CalleeName(cinfo, c)
+			good := false
+			switch name {
+			case "strings.Split", "strings.SplitSeq":
+				good = len(c.Args) == 2 && constStrIs(cinfo, c.Args[1], "\n")
+			case "strings.Lines", "(*bufio.Scanner).Scan":
+				good = true
+			case "strings.SplitN":
+				if v, isC := core.ConstInt(cinfo, c.Args[2]); isC && v < 0 && constStrIs(cinfo, c.Args[1], "\n") {
+					good = true
+				}
+			}
+			r.Check(good, rule, cl, "the comment text is cut at every line break: "+name, c.Pos(), "split on \"\\n\" without a limit", "the text of a comment group is not cut at every line break ("+core.ExprStr(c)+"): lines of a block comment stay glued together, tag lines inside are never classified")
+		}
 	}
 }
